@@ -4,6 +4,8 @@ import PynguinModel.Model.TracerState
 open Lean PynguinModel.TracerState
 
 deriving instance FromJson for Variant
+deriving instance FromJson for Exc
+deriving instance FromJson for Catch
 deriving instance FromJson for Ev
 
 structure Case where
@@ -12,17 +14,26 @@ structure Case where
   evs : List Ev
   deriving FromJson
 
+def excJ : Option Exc → Json
+  | none => Json.null
+  | some .exception => "exception"
+  | some .base => "base"
+
 def snapJ (s : Snap) : Json :=
   Json.mkObj [("disabled", toJson s.disabled), ("lines", toJson s.lines),
-    ("preds", toJson (s.preds.map fun (p, c) => [p, c]))]
+    ("preds", toJson (s.preds.map fun (p, c) => [p, c])), ("instrs", toJson s.instrs),
+    ("codeObjs", toJson s.codeObjs)]
 
 def runCase (c : Case) : Json :=
-  let s0 : State := ⟨c.enabled, ⟨[], []⟩⟩
+  let t0 : Trace := ⟨[], [], [], []⟩
+  let s0 : State := ⟨c.enabled, t0⟩
   let r := execList c.variant s0 c.evs
-  let rr := refList c.enabled ⟨[], []⟩ c.evs
-  Json.mkObj [("final", snapJ (snap r.1)), ("raised", toJson r.2),
+  let rr := refList c.enabled t0 c.evs
+  Json.mkObj [("final", snapJ (snap r.1)), ("raised", excJ r.2),
     ("log", Json.arr ((execListLog c.variant s0 c.evs).map snapJ).toArray),
-    ("ref", snapJ ⟨!c.enabled, rr.1.lines, rr.1.preds⟩)]
+    ("flags", toJson ((flagsAfter c.variant s0 c.evs).map fun b => !b)),
+    ("ref", snapJ ⟨!c.enabled, rr.1.lines, rr.1.preds, rr.1.instrs, rr.1.codeObjs⟩),
+    ("refRaised", excJ rr.2)]
 
 partial def loop (h : IO.FS.Stream) : IO Unit := do
   let line ← h.getLine
